@@ -217,6 +217,28 @@ def main(prop, tier="quick", replay=None, collect=False):
             if findings.tolerated(prop, v["kind"], v["detail"], v["case"]) is None:
                 v = dict(v); v["detail"] = v["detail"] + " [regression of repaired defect: %s]" % rec.get("what", path)
                 new_violations.append(v)
+    # 2b. repaired defects kept as stand-alone programs (findings/fixed/<ID>-*.py: public API only, own oracle, exit 1 =
+    #     the defect is back).  They run in a subprocess against the tree under test.
+    import glob
+    import subprocess
+    from .util import REPO_SRC
+    for script in sorted(glob.glob(os.path.join(VERIF, "findings", "fixed", prop + "-*.py"))):
+        rel = os.path.relpath(script, VERIF)
+        env = dict(os.environ, PYTHONPATH=REPO_SRC, PYTHONDONTWRITEBYTECODE="1")
+        try:
+            r = subprocess.run([sys.executable, script], env=env, stdout=subprocess.PIPE, stderr=subprocess.STDOUT, timeout=300,
+                               cwd=os.path.dirname(script))
+        except subprocess.TimeoutExpired:
+            acc.inconclusive += 1
+            acc.notes.append("regression program %s did not finish in 300 s: inconclusive" % rel)
+            continue
+        acc.label("regression_programs")
+        if r.returncode == 1:
+            tail = r.stdout.decode("utf-8", "replace").strip().splitlines()[-6:]
+            new_violations.append({"property": prop, "kind": "regression_program", "detail": "%s exits 1 [regression of a repaired defect]" % rel,
+                                   "case": {"program": rel}, "text": "\n".join(tail)})
+        elif r.returncode != 0:
+            errors.append("regression program %s: exit %d\n%s" % (rel, r.returncode, r.stdout.decode("utf-8", "replace")[-800:]))
     # 3. shards
     walls = []
     for spec in shard_specs:
